@@ -2,6 +2,7 @@ import BfeVerif.Common.Proto
 import BfeVerif.C12.Model
 import BfeVerif.C12.Compose
 import BfeVerif.C11.Driver
+import BfeVerif.C12.HistDriver
 /-!
   C12 driver.
   op   = `b=<basic rules|none>;a=<adv rules|none>;h=<host>;p=<path|nil>;m=<method>`
@@ -137,6 +138,7 @@ def runE (f : List String) (cS : String) (impl : String) : Ans :=
   | _, _, _, _, _ => { model := "bad-op", verdict := "skip" }
 
 def run (op impl : String) : Ans :=
+  if op.startsWith "hist;;" then runHist parseERules op impl else
   let f := op.splitOn ";"
   if impl == "err:load" then { model := "err:load", verdict := "skip", tags := ["load-error"] } else
   if kv f "k" == some "1" && !basicLoadOk f then
